@@ -3,6 +3,7 @@ CONSTANTS
   MaxNS = 6
   MaxND = 4
   MaxList = 2
+  MaxSync = 1
   Ks = {2, 3}
   Variant = "fixed"
   Modes = {"rows", "cols"}
